@@ -138,6 +138,8 @@ type VerifRibNode struct {
 
 // VerifRibNodes returns every node reachable from the RIB root.
 func VerifRibNodes() []VerifRibNode {
+	Rib.mutex.RLock()
+	defer Rib.mutex.RUnlock()
 	out := make([]VerifRibNode, 0)
 	var walk func(e *RibEntry, path enc.Name)
 	walk = func(e *RibEntry, path enc.Name) {
@@ -157,6 +159,8 @@ func VerifRibNodes() []VerifRibNode {
 
 // VerifResetRib replaces the RIB root by an empty one (the table is a package global) and forgets readvertisers.
 func VerifResetRib() {
+	Rib.mutex.Lock()
+	defer Rib.mutex.Unlock()
 	Rib.RibEntry = RibEntry{children: map[*RibEntry]bool{}}
 	readvertisers = make([]RibReadvertise, 0)
 }
